@@ -22,6 +22,7 @@ import numpy as np
 
 import common
 import steps_gen as G
+import steps_translate
 from common import Infra
 
 PROP = "C03"
@@ -48,13 +49,19 @@ LEVEL_TEXT = (
     "linearized ADMM; all residual accessors -> 0. Merely convex problems in finite dimension: the iterates of ADMM (N "
     "constraints, 0 < alpha < 2), LinearizedADMM, ProximalADMM and PDHG (alpha = 1) converge to a KKT / saddle point (Opial). "
     "PDHG with any alpha: Fejer inequality with an explicit defect; for alpha = 0 (inside the documented range) a proved "
-    "counterexample shows that merely convex problems need not converge. Tie: fixed-point residuals at manufactured exact optima and every one "
+    "counterexample shows that merely convex problems need not converge; for m-strongly convex f and every alpha in [0,1] "
+    "Fejer monotonicity in M_alpha = |a|^2/tau - 2 alpha<Ca,b> + |b|^2/sigma and convergence of the iterates under the extra "
+    "step condition (1-alpha) sigma |C|^2 < 2m. AcceleratedPGM, merely convex f: all iterates in the ball |x_k-x*| <= |x_0-x*| "
+    "around every minimiser, every cluster point a minimiser, convergence of the whole sequence when the minimiser is unique "
+    "(finite dimension). The docstring parameter ranges are pinned strings checked against the source by a generated "
+    "obligation. Tie: fixed-point residuals at manufactured exact optima and every one "
     "of these one-step inequalities along trajectories of the real classes."
 )
 LEVEL_NOTE = (
-    "Outside the theorems (numerical exercise only): convergence of the ITERATES of AcceleratedPGM for merely convex f "
-    "(objective gap is proved) and of any class for merely convex problems in infinite dimension; PDHG with alpha < 1 for "
-    "strongly convex f (open; for merely convex f convergence is disproved for alpha = 0); NonLinearPADMM and non-linear PDHG beyond fixed points (non-convex); adaptive step-size policies "
+    "Outside the theorems (numerical exercise only): convergence of the whole sequence of AcceleratedPGM iterates for merely "
+    "convex f with SEVERAL minimisers (open problem for the library's t rule; boundedness, optimal cluster points and the "
+    "unique-minimiser case are proved) and of any class for merely convex problems in infinite dimension; PDHG with alpha < 1 "
+    "for strongly convex f outside the step condition (1-alpha) sigma |C|^2 < 2m (for merely convex f convergence is disproved for alpha = 0); NonLinearPADMM and non-linear PDHG beyond fixed points (non-convex); adaptive step-size policies "
     "(C16); inexact sub-problem solvers (C10/C14). Trusted: Lean kernel + Mathlib; real-number idealisation; prox maps / "
     "operators enter through contracts (IsProx = argmin for convex functionals; adjoint identity; operator-norm bounds as "
     "hypotheses); step maps tied to the code by C11."
@@ -71,6 +78,7 @@ FILES = [
     "scico/optimize/_pgm.py",
     "scico/optimize/_pgmaux.py",
     "scico/optimize/_common.py",
+    "scico/functional/_functional.py",
 ]
 RULE = (
     "one case = one manufactured problem (exact dyadic minimiser x*, dual certificates y_i, data of f solved from the KKT "
@@ -401,8 +409,12 @@ def manufacture(rng, alg):
             return None
         tau = _P(rng, [0.5, 0.25, 1.0])
         sigma = float(np.floor(_P(rng, [0.9, 0.5]) / (tau * c2) * 256) / 256) or 1.0 / 256
+        alpha = _P(rng, [1.0, 1.0, 1.0, 1.0, 0.5, 0.0, 0.25, 0.0])
+        if alpha < 1.0 and rng.integers(0, 4) != 0:
+            # C03_pdhg_alpha_strong (f = 1/2||x - y0||^2, m = 1): the additional step condition (1 - alpha) sigma ||C||^2 <= 2m
+            sigma = min(sigma, float(np.floor(_P(rng, [1.75, 1.0]) / ((1.0 - alpha) * c2) * 256) / 256) or 1.0 / 256)
         recipe = {"alg": "pdhg", "cplx": False, "xshape": [n], "C": C, "nl": rec, "f": half_loss(xs + J.T @ y), "g": g,
-                  "tau": tau, "sigma": sigma, "alpha": _P(rng, [1.0, 1.0, 1.0, 1.0, 0.5, 0.0]), "x0": xs.tolist(), "z0": y.tolist()}
+                  "tau": tau, "sigma": sigma, "alpha": alpha, "x0": xs.tolist(), "z0": y.tolist()}
         kkt = {"x": xs.tolist(), "xold": xs.tolist(), "z": y.tolist(), "zold": y.tolist()}
         return recipe, kkt, xs
     if alg in ("pgm", "apgm"):
@@ -413,15 +425,31 @@ def manufacture(rng, alg):
             return None
         d = np.asarray([_P(rng, [0.5, 1.0, 2.0, -1.0]) for _ in range(n)])
         useA = bool(rng.integers(0, 2))
+        unique = True
         if useA:  # f = 1/2 ||diag(d) x - b||^2 ,  d(dx* - b) = -y  =>  b = d x* + y / d
-            f = {"k": "sqloss", "s": 0.5, "A": {"t": "diag", "d": d.tolist()}, "yshape": [n], "y": (d * xs + y / d).tolist()}
+            xs = np.asarray(xs, dtype=np.float64)
+            y = np.asarray(y, dtype=np.float64)
+            if n >= 2 and rng.integers(0, 3) == 0:
+                # MERELY CONVEX f: coordinate j does not enter the loss (d_j = 0), so -grad f(x*)_j = 0 has to be a subgradient of
+                # g there (any j for g = 0 / the non-negativity indicator, x*_j = 0 for l1 / squared l2).  With g = 0 / indicator
+                # the minimiser is not unique: only the monotone quantities (valid for EVERY minimiser) are checked then
+                cand = [j for j in range(n) if g["k"] in ("nonneg", "zero") or xs[j] == 0.0]
+                if cand:
+                    j = int(_P(rng, cand))
+                    d[j] = 0.0
+                    y = y.copy()
+                    y[j] = 0.0
+                    unique = g["k"] in ("l1", "sql2")
+            dd = np.where(d != 0.0, d, 1.0)
+            yv = np.where(d != 0.0, d * xs + y / dd, 1.0)
+            f = {"k": "sqloss", "s": 0.5, "A": {"t": "diag", "d": d.tolist()}, "yshape": [n], "y": yv.tolist()}
             lip, mstrong = float(np.max(d**2)), float(np.min(d**2))
         else:
             f = half_loss(xs + y)
             lip, mstrong = 1.0, 1.0
         L0 = lip * _P(rng, [1.0, 1.5, 2.0])
         recipe = {"alg": alg, "cplx": False, "xshape": [n], "f": f, "g": g, "L0": L0, "x0": xs.tolist(),
-                  "pol": {"kind": "base", "real": True}, "_lip": lip, "_m": mstrong}
+                  "pol": {"kind": "base", "real": True}, "_lip": lip, "_m": mstrong, "_unique": unique}
         if rng.integers(0, 3) == 0:
             # the library's own adaptive step-size policies (C16): a KKT point must stay fixed and the iterates must still
             # reach the minimiser; the monotone quantities that presuppose L >= Lipschitz constant do not apply
@@ -569,6 +597,13 @@ def trajectory_case(ctx, recipe, kkt, xs, rng, K, check_conv=True):
         if alg == "apgm" and not nonbase:
             qq = 1.0 - recipe["_m"] / float(recipe["L0"])
             target = max(0.05, 2.0 * qq ** (K / 2.0)) * d0 + 1e-7
+            if recipe["_m"] == 0.0:
+                target = 0.05 * d0 + 1e-7  # merely convex f, unique minimiser: C03_fista_merely_convex (no rate; extended budget)
+        if recipe.get("_unique") is False:
+            target = float("inf")  # several minimisers: the iterates need not approach the manufactured one
+            ctx.count(f"merely-convex:{alg}:minimiser-not-unique")
+        elif recipe.get("_m") == 0.0:
+            ctx.count(f"merely-convex:{alg}:unique-minimiser")
         # no rate is claimed for these classes (only convergence is a theorem): slowly converging instances (large rho,
         # ill-conditioned C) get up to 20x the budget before the case is reported
         extra = 0
@@ -660,6 +695,25 @@ def lyapunov_monitors(ctx, recipe, kkt, xs, states, fobjs, b):
                 return {"quantity": "PDHG Fejer inequality in the M-metric (alpha=%g; gain 2m|x+-x*|^2 for alpha=1, defect 2(1-alpha)<z+-z*,C(x-x+)> otherwise)" % al, "k": k, "lhs": lhs, "M_before": Mn(a0, b0),
                         "M_after": Mn(a1, b1)}
         ctx.count("monotone:pdhg-fejer-M" + ("" if float(recipe["alpha"]) == 1.0 else "-with-alpha-defect"))
+        # C03_pdhg_alpha_strong: alpha in [0,1), m-strongly convex f, tau sigma L^2 <= 1 and (1-alpha) sigma L^2 <= 2m:
+        #   M_alpha(w+ - w*) + (2m - (1-alpha) sigma L^2) |x+ - x*|^2 <= M_alpha(w - w*),   M_alpha = |a|^2/tau - 2 alpha <Ca,b> + |b|^2/sigma
+        al = float(recipe["alpha"])
+        L2 = float(np.linalg.norm(M, 2) ** 2) * (1.0 + 1e-12)
+        gap = 2.0 * m_f - (1.0 - al) * sig * L2
+        if 0.0 <= al < 1.0 and m_f > 0.0 and gap >= 0.0 and tau * sig * L2 <= 1.0:
+            def MA(a, bb):
+                return _sq(a) / tau - 2.0 * al * float((M @ a) @ bb) + _sq(bb) / sig
+
+            for k in range(0, len(states) - 1):
+                s0, s1 = states[k], states[k + 1]
+                a0, b0 = A_(s0["x"]) - xs, A_(s0["z"]) - zs
+                a1, b1 = A_(s1["x"]) - xs, A_(s1["z"]) - zs
+                if MA(a1, b1) + gap * _sq(a1) > MA(a0, b0) + tol(MA(a0, b0)):
+                    return {"quantity": "PDHG Fejer inequality in the M_alpha-metric (alpha=%g < 1, strongly convex f): M_a(w+) + gap|x+-x*|^2 <= M_a(w)" % al,
+                            "k": k, "gap": gap, "M_before": MA(a0, b0), "M_after": MA(a1, b1), "x_dist_sq": _sq(a1)}
+            ctx.count("monotone:pdhg-fejer-M_alpha-strongly-convex")
+        elif 0.0 <= al < 1.0:
+            ctx.count("pdhg-alpha<1:step-condition-(1-alpha)sigma|C|^2<=2m-not-met")
     if alg == "padmm":
         MA = dense(recipe["A"], [n])
         p = MA.shape[0]
@@ -719,7 +773,27 @@ def lyapunov_monitors(ctx, recipe, kkt, xs, states, fobjs, b):
             if Es[k] > Es[k - 1] + tol(Es[k - 1]):
                 return {"quantity": "FISTA potential 2t(t-1)(F(x)-F*) + L|t v-(t-1)x-x*|^2", "k": k, "before": Es[k - 1], "after": Es[k]}
         ctx.count("monotone:fista-potential")
+        # C03_fista_iterates_ball: every iterate stays in the closed ball of radius |x0 - x*| around the minimiser (f merely convex)
+        r0 = float(np.sqrt(d0sq))
+        for k in range(1, len(states)):
+            dk = float(np.sqrt(_sq(A_(states[k]["x"]) - xs)))
+            if np.isfinite(dk) and dk > r0 + tol(r0):
+                return {"quantity": "FISTA iterates in the ball |x_k - x*| <= |x_0 - x*|", "k": k, "distance": dk, "radius": r0}
+        ctx.count("monotone:fista-ball")
     return None
+
+
+def generate(ctx):
+    """translator (harness/steps_translate.py): tables read with `ast` from the working tree, one generated module whose
+    `decide` obligations compare them with Model/StepsSource.lean"""
+    steps_translate.generate()
+    return [("Scico.Generated.StepsTables",
+             "constructor parameters with defaults of ADMM / LinearizedADMM / ProximalADMM(Base) / NonLinearPADMM / PDHG / PGM / AcceleratedPGM, "
+             "normalised statement lists of every transcribed method (step, __init__, accessors, residuals, z_init / u_init, "
+             "_working_vars_finite, _itstat_extra_fields, Functional.conj_prox, LinearSubproblemSolver.compute_rhs / solve), order of the "
+             "self-attribute assignments of step() / __init__, the parameter constraints printed in the class docstrings, and the "
+             "sub-problem solver classes (base, reduction over C_list, defaults) equal the tables the model transcribes "
+             "(Model/StepsSource.lean)")]
 
 
 def corpus_cases():
@@ -805,6 +879,33 @@ def correspond(ctx, model):
 
 def findings(ctx, model):
     pass
+
+
+def search(ctx, model, why):
+    """oracle search on the implementation alone (no model): step() at manufactured KKT states must not move, and a short
+    run from a perturbed start must not move away from the optimum of a strongly convex instance"""
+    common.setup_scico()
+    rng = np.random.Generator(np.random.PCG64(ctx.seed + 104729))
+    ignore = ("mem", "fpr", "t", "L")
+    for it in range(ctx.n(4, 12)):
+        for alg in G.ALGS:
+            m = None
+            for _ in range(20):
+                m = manufacture(rng, alg)
+                if m is not None:
+                    break
+            if m is None:
+                continue
+            recipe, kkt, xs = m
+            b = G.Built(recipe)
+            b.write(kkt)
+            b.solver.step()
+            post = b.read()
+            ctx.count("oracle-search-cases")
+            fld = G.states_close(kkt, post, rtol=TOL, skip=ignore)
+            if fld is not None:
+                return {"class": type(b.solver).__name__, "recipe": recipe, "kkt_state": kkt, "field": fld, "after_step": post[fld]}
+    return None
 
 
 def replay(ctx, model, case):
